@@ -749,7 +749,7 @@ fn borrowed_any_case(rep: &mut Report, seed: u64, i: u64) {
 }
 
 pub fn run(a: &Args, rep: &mut Report) {
-    let n: u64 = if a.thorough() { 400_000 } else { 12_000 };
+    let n: u64 = if a.thorough() { 400_000 } else { 48_000 };
     macro_rules! m {
         ($t:ty) => {
             run_type::<$t>(a, rep, n)
